@@ -358,6 +358,7 @@ int main(int argc, char **argv)
     unsigned long runs = 0, runs_faulted = 0, n0, a, b, c; unsigned long singles = 0, suffixes = 0, pairs = 0, triples = 0, quads = 0, aborted_runs = 0, d;
     char viol[8][900]; char violrp[8][64]; int nviol = 0; char samples[4][700]; int nsamples = 0; unsigned long o[4];
     setvbuf(stdout, NULL, _IOFBF, 1 << 16);
+    shim_watchdog_start();
     for (i = 1; i < argc; i++) {
         if (!strcmp(argv[i], "--prop") && i + 1 < argc) prop = argv[++i];
         else if (!strcmp(argv[i], "--config") && i + 1 < argc) sc = atoi(argv[++i]);
